@@ -609,12 +609,16 @@ class XRL:
         ext[dim] = e
         co = dict(a._coords)
         co[dim] = LCoord(dim, CoordId("concat", *[o._coords[dim].cid for o in objs]), e)
+        positional = kw.get("join") == "override" or kw.get("compat") == "override"
         for o in objs[1:]:
             for d in a._dims:
                 if d != dim:
                     ca, cb = a._coords.get(d), o._coords.get(d)
                     if ca is not None and cb is not None and not ca.cid.same_labels(cb.cid):
                         ctx().events.append(("outer-join", f"concat along {dim}: {d} labels differ ({ca.cid} vs {cb.cid})"))
+                    elif ca is not None and cb is not None and ca.cid.key != cb.cid.key and positional:
+                        # same labels in a possibly different order: only label-based alignment keeps values on their labels
+                        ctx().events.append(("positional-join", f"concat along {dim} without alignment: {d} is {ca.cid} vs {cb.cid}"))
         return a._new(("concat", dim) + tuple(o.val for o in objs), None, ext, co, any(o.lazy for o in objs))
 
     def __getattr__(self, k):
